@@ -297,9 +297,9 @@ func wrapAngles(l []string) []string {
 // storedMsg is what the oracle reads back from the store.
 type storedMsg struct {
 	Mailbox, ID, Token, Subject, From string
-	To                               []string
-	Size                             int64
-	Source                           []byte
+	To                                []string
+	Size                              int64
+	Source                            []byte
 }
 
 // dumpStore reads every mailbox (VisitMailboxes plus the given names).
